@@ -437,6 +437,37 @@ impl ProgFamily for Vocabulary {
     }
 }
 
+
+/// Two files whose token streams mirror each other: where file A writes the nested types of an alias, file B writes a
+/// reference to that alias - at the same rows and columns (one token per line), or shifted through every offset (one
+/// line). What is "written in place" in B must be decided by the file as well as by the position.
+pub struct MirroredFiles;
+impl ProgFamily for MirroredFiles {
+    fn name(&self) -> String {
+        "mirrored-files/an alias of an anonymous type (3 shapes) in file A, a scoped reference to it at coinciding positions in file B (25 name lengths x one line / one token per line), and fields using both".into()
+    }
+    fn len(&self) -> u64 {
+        3 * 25 * 2
+    }
+    fn get(&self, idx: u64) -> PCase {
+        let shape = idx % 3;
+        let pad = ((idx / 3) % 25) as usize;
+        let newline = (idx / 75) % 2 == 1;
+        let target = match shape {
+            0 => MType::seq(MType::prim("int32")),
+            1 => MType::dict(MType::prim("string"), MType::seq(MType::prim("bool")).opt()),
+            _ => MType::result(MType::prim("varuint62"), MType::seq(MType::prim("float64"))),
+        };
+        let mut a = MFile::module("Amodule");
+        a.defs.push(alias("LongAliasNameOfA", target));
+        a.defs.push(st("UsesIt", vec![MField::new("here", MType::named("LongAliasNameOfA"))]));
+        let mut b = MFile::module("Bmodule");
+        b.defs.push(alias(&format!("U{}", "u".repeat(pad)), MType::named("Amodule::LongAliasNameOfA")));
+        b.defs.push(st("UsesIt", vec![MField::new("there", MType::named("Amodule::LongAliasNameOfA").opt()), MField::new("x", MType::seq(MType::named("::Amodule::LongAliasNameOfA")))]));
+        PCase { program: vec![a, b], layout: Layout::uniform(if newline { Sep::Newline } else { Sep::Space }, Commas::None), label: format!("shape {shape}, name padded by {pad}, {}", if newline { "one token per line" } else { "one line" }), may_warn: false }
+    }
+}
+
 pub fn program_families(tier: &str) -> Vec<Box<dyn ProgFamily>> {
     let quick = tier == "quick";
     let mut v: Vec<Box<dyn ProgFamily>> = vec![
@@ -453,6 +484,7 @@ pub fn program_families(tier: &str) -> Vec<Box<dyn ProgFamily>> {
     ];
     v.push(Box::new(Sequences { depth: 3, layouts: six_layouts(), full_product: !quick }));
     v.push(Box::new(Vocabulary::new()));
+    v.push(Box::new(MirroredFiles));
     if !quick {
         // all 40^4 sequences of four constructs, each once (layout and module scope rotate)
         v.push(Box::new(Sequences { depth: 4, layouts: six_layouts(), full_product: false }));
